@@ -339,8 +339,11 @@ func (m *MemStore) note(ctx context.Context, d kernel.Decision) {
 
 // FindByKey implements IssuanceChainStorage.
 func (m *MemStore) FindByKey(ctx context.Context, key []byte) ([]byte, error) {
-	d, err := m.S.Seam(ctx, m.party(ctx), "store.Find", "", key)
-	if err != nil {
+	// The lookup does not watch the request's context while it is under way (a store may notice a cancellation late
+	// or not at all): when the driver lets it finish after the deadline it either reports the context's error, as a
+	// well-behaved store does, or - "store.slow" - the row it has found meanwhile.
+	d, _ := m.S.Seam(nil, m.party(ctx), "store.Find", "", key)
+	if err := ctx.Err(); err != nil && d.Kind != "store.slow" {
 		m.note(ctx, kernel.Decision{Kind: "ctx"})
 		return nil, err
 	}
